@@ -2,12 +2,12 @@
 # usage: tools/verify_seed.sh <ID-dir under /tmp/wt> e.g. C07  -- confirms a sub-agent's seeded change independently:
 # patch applies to /repo HEAD, the 134 baseline tests pass with it, the demonstration fails with it and passes without it.
 set -u
-ID="$1"; OUT=/tmp/wt/$ID-out; WT=/tmp/wt/verify-$ID
+ID="$1"; ROOT=${SEED_ROOT:-/tmp/wt}; OUT=$ROOT/$ID-out; WT=$ROOT/verify-$ID
 export CARGO_NET_OFFLINE=true RUST_BACKTRACE=0
 rm -rf "$WT"; git -C /repo worktree prune
 git -C /repo worktree add -q "$WT" HEAD || exit 2
 # reuse the agent's build output to save time
-[ -d /tmp/wt/$ID/target ] && mv /tmp/wt/$ID/target "$WT/target"
+[ -d $ROOT/$ID/target ] && mv $ROOT/$ID/target "$WT/target"
 cd "$WT"
 DEMO=$(ls $OUT/demo/*.rs 2>/dev/null | head -1); NAME=$(basename "${DEMO:-none}" .rs)
 EXTRA=""; [ "$ID" = "C09" ] && EXTRA="--features walrus/parallel"
